@@ -9,6 +9,9 @@ pub mod c03;
 pub mod c04;
 pub mod c05;
 pub mod c06;
+pub mod c07;
+pub mod c08;
+pub mod c09;
 
 pub fn get(id: &str) -> Option<Box<dyn Monitor>> {
     match id {
@@ -18,6 +21,9 @@ pub fn get(id: &str) -> Option<Box<dyn Monitor>> {
         "C04" => Some(Box::new(c04::C04)),
         "C05" => Some(Box::new(c05::C05)),
         "C06" => Some(Box::new(c06::C06)),
+        "C07" => Some(Box::new(c07::C07)),
+        "C08" => Some(Box::new(c08::C08)),
+        "C09" => Some(Box::new(c09::C09)),
         _ => None,
     }
 }
